@@ -319,22 +319,22 @@ func calibLaxDER(st *CalibStats) error {
 	}
 	cases := []tc{
 		{"3006020101020102", true, 1, 2},
-		{"30060201010201020000", true, 1, 2},                 // trailing garbage ignored
-		{"307f020101020102", true, 1, 2},                     // sequence length not validated (short form)
-		{"30ff020101020102", false, 0, 0},                    // 0xff = long form with 127 length bytes: more than there is
-		{"3081ff020101020102", true, 1, 2},                   // long form 0x81: one length byte (ff) skipped, value ignored
-		{"308106020101020102", true, 1, 2},                   // long form 0x81: skip one length byte
-		{"3006028101010201 02", true, 1, 2},                  // long-form integer length 0x81 0x01
-		{"300602820001010201 02", true, 1, 2},                // long form with leading zero length byte
-		{"30060285000000000101020102", true, 1, 2},           // many leading zero length bytes are skipped
-		{"300602840100000001020102", false, 0, 0},            // 4 significant length bytes -> fail
-		{"300602010102 01", false, 0, 0},                     // truncated before S length
-		{"3006020101020200", false, 0, 0},                    // S length 2 but 1 byte left
-		{"3006020100020100", true, 0, 0},                     // zeros parse fine (verification fails later)
-		{"30060201ff020180", true, 255, 128},                 // "negative" DER integers are read as unsigned
-		{"300a02030000010203000002", true, 1, 2},             // leading zeros ignored
-		{"3106020101020102", false, 0, 0},                    // wrong tag
-		{"3006030101020102", false, 0, 0},                    // wrong integer tag
+		{"30060201010201020000", true, 1, 2},       // trailing garbage ignored
+		{"307f020101020102", true, 1, 2},           // sequence length not validated (short form)
+		{"30ff020101020102", false, 0, 0},          // 0xff = long form with 127 length bytes: more than there is
+		{"3081ff020101020102", true, 1, 2},         // long form 0x81: one length byte (ff) skipped, value ignored
+		{"308106020101020102", true, 1, 2},         // long form 0x81: skip one length byte
+		{"3006028101010201 02", true, 1, 2},        // long-form integer length 0x81 0x01
+		{"300602820001010201 02", true, 1, 2},      // long form with leading zero length byte
+		{"30060285000000000101020102", true, 1, 2}, // many leading zero length bytes are skipped
+		{"300602840100000001020102", false, 0, 0},  // 4 significant length bytes -> fail
+		{"300602010102 01", false, 0, 0},           // truncated before S length
+		{"3006020101020200", false, 0, 0},          // S length 2 but 1 byte left
+		{"3006020100020100", true, 0, 0},           // zeros parse fine (verification fails later)
+		{"30060201ff020180", true, 255, 128},       // "negative" DER integers are read as unsigned
+		{"300a02030000010203000002", true, 1, 2},   // leading zeros ignored
+		{"3106020101020102", false, 0, 0},          // wrong tag
+		{"3006030101020102", false, 0, 0},          // wrong integer tag
 		{"", false, 0, 0},
 		{"30", false, 0, 0},
 		{"3000", false, 0, 0},
